@@ -165,6 +165,9 @@ func runC10Early(c *Ctx, w *ATWorld, cs *ATCase, run *ATRun, r *Rng) {
 	w.Eng.ResetJournal()
 	target := r.Intn(len(cs.Locals))
 	deliveries := 1 + r.Intn(3)
+	// in a third of the cases the coordinator, which has finished the global transaction already, also refuses
+	// the PhaseoneFailed report of the late local transaction (every attempt)
+	reportFails := (target+deliveries+len(cs.Rows)+len(cs.Locals))%3 == 0
 	run.crash = safeCall(func() {
 		run.xid, _ = InGlobalTx(cs.ID, func(ctx context.Context) error {
 			for li, ltx := range cs.Locals {
@@ -184,6 +187,9 @@ func runC10Early(c *Ctx, w *ATWorld, cs *ATCase, run *ATRun, r *Rng) {
 								}
 							}
 							return Action{Body: message.BranchRegisterResponse{AbstractTransactionResponse: okHead(), BranchId: id}}
+						}
+						if b, ok := m.Body.(message.BranchReportRequest); ok && b.Xid == tmXID(ctx) && reportFails {
+							return Action{TransportE: true}
 						}
 						return Action{}
 					}
@@ -229,6 +235,9 @@ func runC10Early(c *Ctx, w *ATWorld, cs *ATCase, run *ATRun, r *Rng) {
 						res = "committed"
 					}
 					run.Obs = append(run.Obs, fmt.Sprintf("L:early-rb:%s:%s", earlyStatus, res))
+					if open := w.Eng.OpenTxns(); len(open) > 0 && run.lateCommit == "" {
+						run.lateCommit = fmt.Sprintf("the late local transaction was refused but its connection went back to the pool inside a transaction (report refused: %v): %v", reportFails, open)
+					}
 					if after := w.DumpTable(sc.Table); earlyStatus == "ok" && after != tableBefore {
 						run.lateCommit = fmt.Sprintf("the branch was answered rollbacked %d time(s) before its undo log was flushed, yet its local transaction committed: %s -> %s", deliveries, tableBefore, after)
 					}
